@@ -13,7 +13,7 @@ from props.C07 import gen_sel, _py_sel
 
 REQUIRED_THEOREMS = ['Usid.C20.read_frame', 'Usid.C20.history_independent_reads', 'Usid.C20.write_refused',
                      'Usid.C20.ro_never_changes', 'Usid.C20.rw_write_changes', 'Usid.C20.table_functional']
-RULE = ('[also: a TARGET group in another file - results group, process, empty dataset written to it and look-ups in it - under every combination of open modes of the source and target files] generator files (a Main dataset with 1-3 dimensions per side, its ancillaries, 0-2 groups of earlier results '
+RULE = ('[also: every file holds a dataset that is a Main dataset but for the labels / units of one ancillary] [also: a TARGET group in another file - results group, process, empty dataset written to it and look-ups in it - under every combination of open modes of the source and target files] generator files (a Main dataset with 1-3 dimensions per side, its ancillaries, 0-2 groups of earlier results '
         'holding their own Main dataset, a decoy group, plain datasets) opened "r" and "r+"; random sequences (<= 8 '
         'quick, <= 20 thorough) of the 24 read-side operations with generated arguments; after EVERY operation the '
         'SHA-256 of the file on disk (read-only) and a canonical dump of every dataset and attribute through the open '
@@ -46,7 +46,7 @@ def _gen_op(rng, ds, name=None):
     sizes = pos['sizes'] + spec['sizes']
     op = {'name': name}
     if name == 'check_if_main':
-        op['target'] = rng.choice(['main', 'plain', 'anc', 'res'])
+        op['target'] = rng.choice(['main', 'plain', 'anc', 'res', 'older'])
     elif name == 'print_tree':
         op['main_only'] = rng.random() < 0.5
         op['rel'] = rng.random() < 0.5
@@ -183,6 +183,15 @@ def _make_file(inp, path):
             gen.write_usid(rg, ds, name='Res')
         decoy = g.create_group('main-Fitting_000')
         decoy.attrs['p'] = 1
+        # a dataset that is a Main dataset in everything but the description of ONE of its ancillaries (labels and /
+        # or units missing there, present on its sibling): recognising it must answer "not main" and touch nothing
+        og = g.create_group('Older')
+        gen.write_usid(og, ds, name='almost')
+        pick = (n * 7 + m * 3 + len(ds['pos']['sizes'])) % 6
+        victim = og[['Position_Values', 'Position_Indices', 'Spectroscopic_Values', 'Spectroscopic_Indices',
+                     'Position_Values', 'Spectroscopic_Values'][pick]]
+        for a in (['labels', 'units'], ['labels', 'units'], ['units'], ['labels'], ['units'], ['labels', 'units'])[pick]:
+            del victim.attrs[a]
 
 
 def _sha(path):
@@ -324,7 +333,8 @@ def _do(op, cx, inp):
         return None
     if name == 'check_if_main':
         tgt = {'main': main, 'plain': g['plain'], 'anc': g['Position_Indices'],
-               'res': g['main-Fit_000/Res'] if 'main-Fit_000' in g else g['plain_same']}[op['target']]
+               'res': g['main-Fit_000/Res'] if 'main-Fit_000' in g else g['plain_same'],
+               'older': g['Older/almost']}[op['target']]
         return bool(hu.check_if_main(tgt))
     if name == 'repr':
         return [repr(u), str(u)]
